@@ -1,5 +1,6 @@
 import Rfsm.Audit
 import Rfsm.Proofs.ExprOps
+import Rfsm.Proofs.ExprGrouping
 /-!
 # C10 — rfsm-expression evaluation follows the documented language semantics
 
@@ -17,49 +18,12 @@ namespace Rfsm.Expr
 
 /-! ## Grouping -/
 
-/-- binary trees over operand expressions: the shape `stack_to_expression` builds from a chain -/
-inductive BTree
-  | leaf (e : Expr)
-  | node (o : Op) (l r : BTree)
-
-/-- the expression node the parser builds -/
-def BTree.toExpr : BTree → Expr
-  | .leaf e => e
-  | .node o l r => mkBinary o l.toExpr r.toExpr
-
-/-- in-order reading: operands and operators as written -/
-def BTree.inorder : BTree → Expr × List (Op × Expr)
-  | .leaf e => (e, [])
-  | .node o l r =>
-    let (a, x) := l.inorder
-    let (b, y) := r.inorder
-    (a, x ++ (o, b) :: y)
-
-/-- priority of the top operator; an operand binds tightest -/
-def BTree.topPrio : BTree → Nat
-  | .leaf _ => 0
-  | .node o _ _ => prio o
-
-def rightAssoc (o : Op) : Bool := o == .assign || o == .assignUndefined
-
-/-- documented grouping: the left subtree binds at least as tightly and the right one strictly
-tighter (left to right); the other way round for `=` and `?=` -/
-def WellGrouped : BTree → Prop
-  | .leaf _ => True
-  | .node o l r =>
-    WellGrouped l ∧ WellGrouped r ∧
-    (if rightAssoc o then l.topPrio < prio o ∧ r.topPrio ≤ prio o
-     else l.topPrio ≤ prio o ∧ r.topPrio < prio o)
-
-/-- what the code does: every operator groups to the right -/
-def RightGrouped : BTree → Prop
-  | .leaf _ => True
-  | .node o l r => RightGrouped l ∧ RightGrouped r ∧ l.topPrio < prio o ∧ r.topPrio ≤ prio o
-
-/-- the parser stack of an infix chain `a₀ o₁ a₁ … oₙ aₙ` (operands already reduced to
-expressions: literals, parenthesised sub-expressions, calls, …) -/
-def chainStack (a0 : Expr) (rest : List (Op × Expr)) : List Item :=
-  .ex a0 :: rest.flatMap fun (o, a) => [.tok (.operator o), .ex a]
+/-
+`BTree`, `BTree.toExpr`, `BTree.inorder`, `BTree.topPrio`, `WellGrouped` (documented grouping:
+left subtree binds at least as tightly, right subtree strictly tighter; the other way round for
+`=`/`?=`), `RightGrouped` (what the code does) and `chainStack` are defined in
+`Rfsm.Proofs.ExprGrouping`.
+-/
 
 def binaryOps (rest : List (Op × Expr)) : Prop := ∀ p ∈ rest, p.1 ≠ .not
 
@@ -111,7 +75,7 @@ theorem C10_counterexample_divide :
       .ok (.op .divide (.const (.int 100)) (.op .divide (.const (.int 10)) (.const (.int 5)))) := rfl
 #assert_axioms C10_counterexample_divide
 
-theorem inorder_leaf_of_nil {t : BTree} {a : Expr} (h : t.inorder = (a, [])) : t = .leaf a := by
+theorem inorder_leaf_of_nil_aux {t : BTree} {a : Expr} (h : t.inorder = (a, [])) : t = .leaf a := by
   cases t with
   | leaf e => simp [BTree.inorder] at h; rw [h]
   | node o l r =>
@@ -169,7 +133,7 @@ theorem C10_counterexample : ¬ C10_grouping_full := by
           simp only [List.cons_append, List.nil_append, List.cons.injEq, Prod.mk.injEq] at hxy
           obtain ⟨hp, ⟨ho, hb⟩, hy⟩ := hxy
           subst ho hp hy
-          have hrl := inorder_leaf_of_nil hr
+          have hrl := inorder_leaf_of_nil_aux hr
           subst hrl
           -- the tree is ((10 - 4) - 3): its expression differs from what the code built
           cases l with
@@ -181,6 +145,40 @@ theorem C10_counterexample : ¬ C10_grouping_full := by
           have := congrArg List.length hxy
           simp at this
 #assert_axioms C10_counterexample
+
+/-! ### what does hold for every chain -/
+
+/-- **Grouping theorem.**  For every infix chain of binary operators over arbitrary operand
+expressions, `stack_to_expression` returns a tree whose in-order reading is the chain, in which
+every operator's left subtree binds strictly tighter and its right subtree at least as tightly
+(priorities are respected, equal priorities group to the RIGHT).  It is the documented grouping
+whenever no two left-associative operators of equal priority occur in the chain.
+Missing for `C10_grouping_full`: left grouping of repeated equal-priority operators — false on the
+unchanged code (`C10_counterexample`). -/
+theorem C10_grouping_partial (a0 : Expr) (rest : List (Op × Expr)) (hb : binaryOps rest) :
+    ∃ t : BTree, t.inorder = (a0, rest) ∧ RightGrouped t ∧
+      stackToExpr (stackFuel (chainStack a0 rest)) (chainStack a0 rest) = .ok (some t.toExpr) [] ∧
+      (rest.Pairwise (fun p q => prio p.1 = prio q.1 → rightAssoc p.1 = true) → WellGrouped t) := by
+  have hfuel : (leaves rest).length + 1 ≤ stackFuel (chainStack a0 rest) := by
+    rw [chainStack_eq_flat, stackFuel, flat_length]; omega
+  obtain ⟨t, hst, hin, hrg⟩ := stackToExpr_flat (leaves rest).length
+    (stackFuel (chainStack a0 rest)) (.leaf a0) (leaves rest) rfl hfuel
+    (by intro o ho
+        rw [fops_leaves] at ho
+        obtain ⟨p, hp, rfl⟩ := List.mem_map.1 ho
+        exact hb p hp)
+    (Inv_leaves [] a0 rest)
+  rw [inorderF_leaves] at hin
+  refine ⟨t, hin, hrg, by rw [chainStack_eq_flat] at hst ⊢; exact hst, ?_⟩
+  intro hp
+  exact wellGrouped_of_rightGrouped t hrg (by rw [hin]; exact hp)
+#assert_axioms C10_grouping_partial
+
+/-- non-vacuity: `12 + 2 * 4` satisfies the side condition and is grouped `12 + (2 * 4)` -/
+example :
+    stackToExpr (stackFuel (chainStack (.const (.int 12)) [(.plus, .const (.int 2)), (.multiply, .const (.int 4))]))
+      (chainStack (.const (.int 12)) [(.plus, .const (.int 2)), (.multiply, .const (.int 4))]) =
+    .ok (some (.op .plus (.const (.int 12)) (.op .multiply (.const (.int 2)) (.const (.int 4))))) [] := rfl
 
 /-! ## The operator table against mathematical integers -/
 
